@@ -23,14 +23,36 @@ def run(ctx):
     ctx.step(_s3i, ctx)
 
 
-def _const_of(g, e):
+def _const_of(g, e, _d=0):
+    """the value of an expression that is a compile-time constant: a literal, `!literal` (as 'not:<v>'), or simple
+    arithmetic on literals (`1 << POS`, `A | B`: a mask built by a const fn folds to its value)"""
     e = g.strip(e)
     if e[0] == 'c':
-        return str(e[1])
+        return str(e[1]) if e[1] is not None else None
     if e[0] == 'un' and e[1] == 'Not':
-        c = _const_of(g, e[2])
+        c = _const_of(g, e[2], _d + 1)
         if c is not None:
             return 'not:' + c
+    if e[0] == 'fld' and e[2] == '0' and g.strip(e[1])[0] == 'bin' and g.strip(e[1])[1].endswith('WithOverflow'):
+        b = g.strip(e[1])
+        e = ('bin', b[1].replace('WithOverflow', ''), b[2], b[3])
+    if e[0] == 'cast' and _d < 6:
+        return _const_of(g, e[2], _d + 1)
+    if e[0] == 'bin' and _d < 6:
+        a, b = _const_of(g, e[2], _d + 1), _const_of(g, e[3], _d + 1)
+        try:
+            if a is not None and b is not None and not a.startswith('not:') and not b.startswith('not:'):
+                a, b = int(a), int(b)
+                op = e[1].replace('Unchecked', '')
+                M = (1 << 64) - 1
+                r = {'Shl': lambda: (a << b) & M if 0 <= b < 64 else None, 'Shr': lambda: a >> b if 0 <= b < 64 else None,
+                     'BitOr': lambda: a | b, 'BitAnd': lambda: a & b, 'BitXor': lambda: a ^ b,
+                     'Add': lambda: (a + b) & M, 'Sub': lambda: (a - b) & M, 'Mul': lambda: (a * b) & M}.get(op)
+                if r is not None:
+                    v = r()
+                    return None if v is None else str(v)
+        except ValueError:
+            return None
     return None
 
 
@@ -142,7 +164,7 @@ def _p12e(ctx):
 
 def _p12f(ctx):
     b = signal_bits(ctx)
-    fn = ctx.fn1(r'^memory::MemoryManager::start_free$')
+    fn = ctx.fn_or_host(r'^memory::MemoryManager::start_free$', 'MemoryManager.epoch', WRITE_OPS, r'^memory::MemoryManager::')
     g = ctx.graph(fn)
     x = g.x
     installs = []
@@ -151,6 +173,9 @@ def _p12f(ctx):
             for s in n.stmts:
                 if s['k'] == 'assign' and s['pl']['p'] and isinstance(s['pl']['p'][-1], dict) and s['pl']['p'][-1].get('f') == 'tofree':
                     installs.append(x.rep(n.id))
+    # (a batch can also be handed over by moving the elements: `tofree.append(backlog)` / `extend(backlog.drain(..))`)
+    installs += [x.rep(n_) for n_ in x.ext_calls(r'Vec(::<.*>)?::(append|extend|push|insert|extend_from_slice)$|iter::Extend::extend$')
+                 if any(p_.endswith('MemoryManagerInner.tofree') for p_ in g.locpaths(g.call_args(n_)[0]))]
     bumps = [a for a in x.atoms_on('MemoryManager.epoch') if a.op in WRITE_OPS]
     sigs = [a for a in x.atoms_on('AtomicSignal.flags') if a.op == 'fetch_or' and _const_of(g, g.call_args(a.nid)[1]) == b['set_epoch'][1]]
     for i in sorted(set(installs)):
@@ -538,7 +563,40 @@ def _s3i(ctx):
         ok = calls == [kind]
         ctx.add('S3', 'T-SIB', name, ok, '%s::next uses %s (non-blocking iterators never block, blocking ones end only at disconnect)' % (ty, kind) if ok else
                 '%s::next calls %s but this iterator kind must use `%s`' % (ty, calls, kind), sub='iter-kind')
-    ctx.floor('S3', n, 12, 'iterator impls')
+    ctx.floor('S3', n, 1, 'iterator impls')
+    # every iterator the wrapper layer hands out is one of those vetted types: for a foreign adaptor (`impl Iterator`
+    # built from take_while / scan / fuse ..) the per-call behaviour of `next` - one receive per call, None exactly
+    # when that receive fails, and again a receive on the next call - cannot be read off its type
+    vetted = set()
+    for name in F.fns:
+        m = re.match(r'^<((broadcast|mpmc)::\w+?)(<.*>)? as std::iter::Iterator>::next$', name)
+        if m:
+            vetted.add(m.group(1))
+    for im in F.impls:
+        adt = im['self_ty'].get('adt') or (im['self_ty'].get('inner') or {}).get('adt') or ''
+        if not re.match(r'^(broadcast|mpmc)::', adt):
+            continue
+        for it in im['items']:
+            if it['kind'] != 'AssocFn' or it['name'] not in ('iter_with', 'try_iter_with', 'try_iter', 'iter', 'into_iter'):
+                continue
+            ret = it['sig'].rsplit('->', 1)[-1].strip() if '->' in it['sig'] else ''
+            base = re.match(r'^([\w:]+)', ret)
+            okr = bool(base) and base.group(1) in vetted
+            if not okr and ret.startswith('impl ') and it['path'] in F.fns:
+                # `iter::from_fn(|| one receive)` is exactly such an iterator: next() is one call of the closure, nothing
+                # is remembered between calls.  Accepted when it is the only adaptor and the closure makes the one
+                # receive call this kind of iterator must make
+                want = {'iter_with': 'recv_view', 'try_iter_with': 'try_recv_view', 'try_iter': 'try_recv', 'iter': 'recv', 'into_iter': None}[it['name']]
+                g = ctx.graph(it['path'], 'BCast')
+                x = g.x
+                ff = x.ext_calls(r'iter::(sources::from_fn::)?from_fn$')
+                other = [n_ for n_ in x.ext_calls(r'iter::|Iterator::') if n_ not in ff]
+                recvs = sorted({short_fn(g.call_name(n_) or '').split('::')[-1] for n_ in g.live() if g.nodes[n_].call is not None and
+                                re.match(r'^(broadcast|mpmc)::\w+(::<.*>)?::(try_recv|recv|try_recv_view|recv_view)$', g.call_name(n_) or '')})
+                okr = len(ff) == 1 and not other and want is not None and recvs == [want]
+            ctx.add('S3', 'T-SIB', it['path'], okr, '%s returns the crate iterator %s' % (short_fn(it['path']), ret) if okr else
+                    '%s returns `%s`, which is not one of the crate\'s iterator types: whether its next() makes exactly one receive per call and ends (only for that call) when the receive fails depends on foreign adaptors'
+                    % (short_fn(it['path']), ret), sub='iter-type')
 
 
 # ----------------------------------------------------------------------------------------
